@@ -511,8 +511,13 @@ func init() {
 			return replayEv(line)
 		},
 		Rule: "abstract events -> Spec writer bytes -> real decoders vs model vs what was written: all header fields (incl. 2^32-1 values), format descriptions (server version 0..50 bytes, header-size tables 27..255, algorithms 0/1/255), rotate, query (db 0..255 bytes, SQL to 64KB, status-variable subsets in MySQL's order with arbitrary payloads after the known codes), intvar, rand; every body decoder with and without a trailing checksum; raw checksum stripping for both flavours and unknown algorithms; multi-file histories (a format description per file) with and without CRC32 through the real parseEvents. Non-trivial: event with content"})
-	register(&Property{ID: "C15", Gen: genC15, Replay: replayEv,
-		Rule:  "table maps of 1..600 columns (incl. counts >= 251) over all supported types/metadata, names up to 255 bytes, every nullability bitmap, 4/6-byte ids, random optional metadata, with/without checksum; raw length-encoded integers and metadata reads; (parser level) attribution histories over integer-heavy tables of mixed signedness with partial images, re-announcements inside and across transactions, re-definitions of an id (same names, other types) and re-definitions that change the column count (must be rejected); mapper asked once per id. Non-trivial: more than one column",
+	register(&Property{ID: "C15", Gen: genC15, Replay: func(line string) []Case {
+		if strings.HasPrefix(line, "hist ") {
+			return replayHist(line)
+		}
+		return replayEv(line)
+	},
+		Rule:  "table maps of 1..600 columns (incl. counts >= 251) over all supported types/metadata, names up to 255 bytes, every nullability bitmap, 4/6-byte ids, random optional metadata, with/without checksum; raw length-encoded integers and metadata reads; (parser level) attribution histories over integer-heavy tables of mixed signedness with partial images, re-announcements inside and across transactions, re-definitions of an id (same names, other types), ids used again for ANOTHER table (other name or schema, other columns: ids start over when the master restarts) and same-named tables in other schemas, re-definitions that change the column count (must be rejected); several attempts on one Streamer with the tables altered in between; the mapper's calls compared with the exact expected sequence (one per announcement of a table its id does not stand for yet). Non-trivial: more than one column",
 		Extra: func(c *Collector, r *RNG, tier string) { extraC15(c, r, tier) }})
 	register(&Property{ID: "C09", Gen: genC09, Extra: extraC09, Replay: func(line string) []Case {
 		if strings.HasPrefix(line, "hist ") {
